@@ -335,6 +335,15 @@ func checkC04(c *Ctx) error {
 		}
 		_, err = c.mustTLC("GenKinds/nested", TLCOpts{Module: "GenKinds", Cfg: "GenKinds.nested.cfg", Workers: 1, Simulate: n, Depth: 4, Seed: c.Seed, Timeout: 30 * time.Minute}, false, pool.feed)
 	}
+	// ... and random well-formed PROGRAMS (GenProgs.tla: leftmost derivations of plush's grammar of bounded size, statements
+	// and expressions, leaves from the kind pool), drawn by seeded simulation
+	if err == nil {
+		n := 120
+		if c.Thorough() {
+			n = 4000
+		}
+		_, err = c.mustTLC("GenProgs/sim", TLCOpts{Module: "GenProgs", Cfg: "GenProgs.sim.cfg", Workers: 1, Simulate: n, Depth: 70, Seed: c.Seed, Timeout: 40 * time.Minute}, false, pool.feed)
+	}
 	pool.close()
 	if err == nil {
 		c.exhaustive = true
